@@ -466,6 +466,18 @@ func (an *Analysis) BoolUnder(pr *Pruned, assume Assume, v ssa.Value, depth int)
 	if t, ok := pr.foldCond(v, 0); ok {
 		return t, true
 	}
+	// a comparison with the result of a local helper whose live returns, under the assumption, all give one constant
+	// (`maxStale := acceptedStaleness(reqCC)` is 0 without the directive)
+	if bo, ok := v.(*ssa.BinOp); ok && assume != nil && depth < 4 {
+		switch bo.Op {
+		case token.EQL, token.NEQ, token.LSS, token.LEQ, token.GTR, token.GEQ:
+			l, ok1 := an.constUnder(pr, assume, bo.X)
+			r, ok2 := an.constUnder(pr, assume, bo.Y)
+			if ok1 && ok2 && l.Value != nil && r.Value != nil && l.Value.Kind() == r.Value.Kind() {
+				return constant.Compare(l.Value, bo.Op, r.Value), true
+			}
+		}
+	}
 	// a local boolean helper (`withinWindow(…)`, `needsValidation(…)`): its value under the assumption is the common
 	// value of its live returns, the helper pruned under the same assumption (its parameters inherit the atoms of the
 	// arguments, see AtomOf)
@@ -593,4 +605,49 @@ func (an *Analysis) KUnder(kind, id string, assume Assume, isSite func(in ssa.In
 		}
 		return true
 	}
+}
+
+
+// constUnder: v is a live constant in pr, or the result of a local helper all of whose live returns (the helper pruned
+// under the same assumption) give the same constant.
+func (an *Analysis) constUnder(pr *Pruned, assume Assume, v ssa.Value) (*ssa.Const, bool) {
+	if c, ok := pr.liveConst(v, 0); ok {
+		return c, true
+	}
+	call, ok := v.(*ssa.Call)
+	if !ok || an.helperDepth >= 3 {
+		return nil, false
+	}
+	sc := call.Call.StaticCallee()
+	if sc == nil || !an.P.IsRepoFunc(sc) || len(sc.Blocks) == 0 || sc.Signature.Results().Len() != 1 {
+		return nil, false
+	}
+	an.helperDepth++
+	sub := an.Prune(sc, assume)
+	an.helperDepth--
+	var got *ssa.Const
+	for _, b := range sc.Blocks {
+		if !sub.LiveBlock[b.Index] || len(b.Instrs) == 0 {
+			continue
+		}
+		r, ok := b.Instrs[len(b.Instrs)-1].(*ssa.Return)
+		if !ok || len(r.Results) != 1 {
+			continue
+		}
+		c, ok := sub.liveConst(an.RetVal(r, 0), 0)
+		if !ok {
+			return nil, false
+		}
+		if got != nil && !constantEqual(got, c) {
+			return nil, false
+		}
+		got = c
+	}
+	if got == nil {
+		return nil, false
+	}
+	for k := range sub.Used {
+		pr.Used[k] = true
+	}
+	return got, true
 }
